@@ -1,6 +1,7 @@
 package harness
 
 import (
+	"verif/simrt"
 	"fmt"
 	"math/big"
 	"time"
@@ -57,5 +58,54 @@ func init() {
 		c.Sample = fmt.Sprintf("%v | cur=%d stable=%d user0=%s", c.Sample, v.BC.CurrentBlock().Height(), v.BC.StableBlock().Height(), bal)
 		c.Nontrivial = true
 		v.StopNode()
+	}})
+}
+
+func init() {
+	Register(&PropDef{ID: "SMOKE2", Scenario: func(c *Ctx) {
+		p := defaultParams(c)
+		net := NewNet(c, p)
+		f := net.NewFactory(40)
+		v := net.AddNode(1, "v1", detKey("observer1"))
+		v.StartNode()
+		g := NewTxGen(net, c, "tx")
+		crashAt := int64(0)
+		if c.Var == "" {
+			crashAt = 1 + int64(c.Draw("fault", 400))
+		}
+		crashed := false
+		c.W.S.IOHook = func(ev *simrt.IOEvent) simrt.IOAction {
+			if ev.Node == 1 && !crashed && crashAt > 0 && ev.Seq >= crashAt {
+				crashed = true
+				c.Fault("crash_" + ev.Kind)
+				return simrt.IOAction{CrashBefore: true, Torn: ev.Len / 2}
+			}
+			return simrt.IOAction{}
+		}
+		n := 0
+		chainRun(c, net, g, f, ChainRunOpts{MaxBlocks: 5, MaxTxs: 4, NoDumps: true, OnBlock: func(r *BlockRec) bool {
+			if crashed && v.Alive {
+				v.Crash()
+				if !v.StartNode() {
+					c.Fail("SMOKE2/restart", "did not restart")
+					return false
+				}
+				c.Probe("restarted")
+			}
+			_, err := v.InsertBlock(wireCopyBlock(r.Block))
+			var sigs []types.SignData
+			for k := range net.Deputies {
+				if k != r.Deputy {
+					sigs = append(sigs, net.Confirm(k, r.Block.Hash()))
+				}
+			}
+			if v.Alive && !crashed {
+				v.InsertConfirms(r.Block.Height(), r.Block.Hash(), sigs)
+			}
+			n++
+			c.Sample = fmt.Sprintf("blocks=%d lastInsertErr=%v crashed=%v stable=%d", n, err, crashed, v.BC.StableBlock().Height())
+			return true
+		}})
+		c.Nontrivial = true
 	}})
 }
